@@ -12,6 +12,8 @@ EXPLANATION = ("gix_validate::tag::name_inner builds its output only in Mode::Sa
 
 
 def run(db, chk):
+    one_level_table(db, chk)
+    sole_at_rule(db, chk)
     f = db.one(r"^gix_validate::tag::name_inner$")
     fl = Flow(f)
     errs = [bi for bi, si, pl, rv, ln, mc in f.assigns() if rv[0] == "agg" and rv[1] == "adt" and rv[2] == "core::result::Result" and rv[3] == "Err"]
@@ -72,3 +74,94 @@ def run(db, chk):
             if rv[0] == "agg" and rv[2].endswith("gix_validate::reference::Mode") or (rv[0] == "agg" and rv[2].endswith("tag::Mode")):
                 modes.add(rv[3])
     chk.ob("sanitize-entry-uses-sanitize-mode", "name_partial_or_sanitize", "Sanitize" in modes, "modes constructed on the path: %s" % sorted(modes), "%s:%d" % (s.file, s.line), key="sanitize-mode")
+
+
+def one_level_table(db, chk):
+    """a complete reference name without a slash must consist of A-Z and '_' only (git's rule for root refs like HEAD, FETCH_HEAD): the byte
+    predicate that reference::validate applies with all()/any() is evaluated over 0..=255 by interval abstract interpretation (std predicates by
+    their documented sets) and the set of bytes it lets through is compared with that table."""
+    from gx import aiint
+    from gx.flow import Flow
+    from props.C36 import STD, _norm
+    f = db.one(r"^gix_validate::reference::validate$")
+    fl = Flow(f)
+    errs = [bi for bi, si, pl, rv, ln, mc in f.assigns() if rv[0] == "agg" and rv[3] == "SomeLowercase"]
+    chk.floor("reference::validate: Error::SomeLowercase construction", len(errs), 1)
+    want = _norm([(0x41, 0x5a), (0x5f, 0x5f)])
+    done = 0
+    for c in f.calls():
+        if not c.is_(r"Iterator>?::(all|any)$|::(all|any)$") or len(c.args) < 2:
+            continue
+        e = fl.result_edges(c)
+        err_on_false = bool(e["bad"]) and any(b in set().union(*[f.reach_from(t) for _, t in e["bad"]]) for b in errs) and not any(b in set().union(*[f.reach_from(t) for _, t in e["good"]]) for b in errs)
+        err_on_true = bool(e["good"]) and any(b in set().union(*[f.reach_from(t) for _, t in e["good"]]) for b in errs) and not any(b in set().union(*[f.reach_from(t) for _, t in e["bad"]]) for b in errs)
+        if not (err_on_false or err_on_true):
+            continue
+        # the predicate: a closure of validate or a function item
+        pred = None
+        for r in fl.roots(c.args[1], stop_named=False):
+            if r[0] == "const" and isinstance(r[1], str) and r[1].startswith("agg:"):
+                pred = ("closure", next((g for g in db.closures_of(f) if g.name == r[1][4:-2]), None))
+            elif r[0] == "fnitem":
+                pred = ("fn", r[1])
+        if "fn" in c.args[1]:
+            pred = ("fn", c.args[1]["fn"])
+        if pred is None:
+            continue
+        truth = None
+        if pred[0] == "closure" and pred[1] is not None:
+            try:
+                pw = aiint.piecewise(pred[1], lambda p: p == [2, "*"] or p == [2], 0, 255, models=STD)
+                truth = _norm([(a, b) for a, b, v in pw if v == 1])
+            except aiint.Unsupported:
+                truth = None
+        elif pred[0] == "fn":
+            import re as _re
+            for k_, v_ in STD.items():
+                if v_ != "range-contains" and _re.search(k_, pred[1]):
+                    truth = _norm(v_)
+        if truth is None:
+            chk.ob("one-level-name-table", "reference::validate %s@%d" % (c.name.split("::")[-1], c.line), False, "byte predicate not evaluable", c.where(), key="one-level-table|unsupported")
+            continue
+        is_all = c.name.endswith("::all")
+        # all(P) with the error on `false`: every byte must satisfy P; any(Q) with the error on `true`: no byte may satisfy Q
+        if is_all and err_on_false:
+            allowed = truth
+        elif (not is_all) and err_on_true:
+            allowed = _norm(aiint._minus([(0, 255)], truth))
+        else:
+            continue
+        done += 1
+        def fmt(ivs):
+            return ",".join("%02x" % a if a == b else "%02x-%02x" % (a, b) for a, b in ivs)
+        chk.ob("one-level-name-table", "reference::validate (Complete mode, no slash)", allowed == want,
+               "bytes accepted in a one-level complete name: {%s}; git accepts {%s} (A-Z and '_'): names like `@`, `1`, `FETCH-HEAD` would be taken as valid full names" % (fmt(allowed), fmt(want)),
+               c.where(), key="one-level-table|validate")
+    chk.floor("reference::validate: byte predicate guarding SomeLowercase", done, 1)
+
+
+def sole_at_rule(db, chk):
+    """git's check_refname_format refuses the name that is exactly `@` (it would be indistinguishable from the HEAD shorthand): name_inner must
+    compare the whole input with the one-byte string "@" (zero-expected elsewhere; the constant is looked up in operands and promoted constants)."""
+    from gx.flow import Flow
+    f = db.one(r"^gix_validate::tag::name_inner$")
+    fam = [f] + [g for g in db.closures_of(f) if g.kind == "closure"]
+    hit = False
+    for g in fam:
+        gfl = Flow(g)
+        for c in g.calls():
+            if not c.is_(r"cmp::PartialEq(<.*>)?>?::(eq|ne)$") or len(c.args) != 2:
+                continue
+            for a, b in ((c.args[0], c.args[1]), (c.args[1], c.args[0])):
+                is_at = a.get("bytes") == "40" or any(r[0] == "const" and r[1] == b"@" for r in gfl.roots(a, stop_named=False))
+                if not is_at:
+                    for r in gfl.roots(a, stop_named=False):
+                        if r[0] == "promoted":
+                            pr = g.promoteds.get("%s::{promoted#%s}" % (g.name, r[1]))
+                            if pr is not None and any(any(o.get("bytes") == "40" for o in ([rv[1]] if rv[0] == "use" else rv[4] if rv[0] == "agg" else []) if isinstance(o, dict)) for bi, si, pl, rv, ln, mc in pr.assigns()):
+                                is_at = True
+                whole = any(r[0] == "arg" and r[1] == 1 and not any(str(x).startswith("[") for x in r[2]) for r in gfl.roots(b, stop_named=False))
+                if is_at and whole:
+                    hit = True
+    chk.ob("sole-at-is-rejected", "tag::name_inner", hit, "no comparison of the whole name with the one-byte string @: git check-ref-format refuses the name `@`, here it is accepted (and left as is by the sanitizer)",
+           "%s:%d" % (f.file, f.line), key="sole-at|name_inner")
